@@ -73,6 +73,9 @@ protected:
     /** The edge under construction. */
     edge_t* currentEdge{nullptr};
 
+    /** Absorbs the labels of an edge whose source or target could not be resolved. */
+    edge_t discardedEdge{};
+
     /** The gantt map under construction. */
     std::unique_ptr<gantt_t> currentGantt{nullptr};
 
@@ -105,6 +108,8 @@ protected:
     bool addFunction(type_t type, const std::string& name, position_t pos) override;
 
     void addSelectSymbolToFrame(const std::string& name, frame_t&, position_t pos);
+
+    void discardEdge();
 
 public:
     DocumentBuilder(Document&, std::vector<std::filesystem::path> paths = {});
